@@ -1027,6 +1027,106 @@ fn c19_set<D: ByteDev>(ctx: &mut Ctx) -> u64 {
         }
     }
     ctx.part(&format!("pairing:{}", D::component()), json!({"sequence_pairs": pairs, "key_sequences": nontrivial, "distinct_keys": makes.len()}));
+
+    // The same pairing after any one preceding complete sequence (a decoder that remembers something about the last
+    // key - a memo, a counter - must not let it leak into what the next make/break pair names)
+    let mut all_seqs: Vec<Vec<u8>> = vec![];
+    for table in [PLAIN, E0, E1] {
+        let prefix: Vec<u8> = match table {
+            E0 => vec![0xE0],
+            E1 => vec![0xE1],
+            _ => vec![],
+        };
+        let codes: Vec<u8> = if set == 2 { (0..=255u8).collect() } else { (0..=0x7Fu8).collect() };
+        for code in codes {
+            if set == 2 && (code == 0xF0 || (table == PLAIN && (code == 0xE0 || code == 0xE1))) {
+                continue;
+            }
+            if set == 1 && table == PLAIN && (code == 0x60 || code == 0x61) {
+                continue;
+            }
+            let mut mk = prefix.clone();
+            mk.push(code);
+            all_seqs.push(mk);
+        }
+    }
+    let brk_of = |mk: &Vec<u8>| -> Vec<u8> {
+        let mut b = mk.clone();
+        let c = b.pop().unwrap();
+        if set == 2 {
+            b.push(0xF0);
+            b.push(c);
+        } else {
+            b.push(c | 0x80);
+        }
+        b
+    };
+    // priors: every make and every break form
+    let mut priors: Vec<Vec<u8>> = vec![];
+    for s in &all_seqs {
+        priors.push(s.clone());
+        priors.push(brk_of(s));
+    }
+    let results = par_chunks(priors.len(), |pi| {
+        let prior = &priors[pi];
+        let mut n = 0u64;
+        let mut bads = vec![];
+        let mut base = D::fresh();
+        let mut ok = true;
+        for b in prior {
+            if feed_guarded(&mut base, *b).is_err() {
+                ok = false;
+            }
+        }
+        if !ok {
+            return (n, bads);
+        }
+        for mk in &all_seqs {
+            let bk = brk_of(mk);
+            let run = |bytes: &Vec<u8>| {
+                let mut d = base.clone();
+                let mut last = Ok(Ok(None));
+                for b in bytes {
+                    last = feed_guarded(&mut d, *b);
+                }
+                last
+            };
+            let m = run(mk);
+            let b = run(&bk);
+            n += 2;
+            let good = match (&m, &b) {
+                (Ok(Ok(Some(me))), _) if me.state == KeyState::SingleShot => true,
+                (Ok(Ok(Some(me))), Ok(Ok(Some(be)))) => me.state == KeyState::Down && be.state == KeyState::Up && me.code == be.code,
+                (Ok(Err(_)), Ok(Err(_))) => true,
+                _ => false,
+            };
+            if !good && bads.len() < 3 {
+                let f = |r: &Result<EvR, String>| match r {
+                    Ok(x) => fmt_ev(x),
+                    Err(p) => p.clone(),
+                };
+                bads.push((prior.clone(), mk.clone(), bk, f(&m), f(&b)));
+            }
+        }
+        (n, bads)
+    });
+    let mut n2 = 0;
+    for (n, bads) in results {
+        n2 += n;
+        for (prior, mk, bk, fm, fb) in bads {
+            let mut o1: Vec<Op> = prior.iter().map(|x| Op::Byte(*x)).collect();
+            let mut o2 = o1.clone();
+            o1.extend(mk.iter().map(|x| Op::Byte(*x)));
+            o2.extend(bk.iter().map(|x| Op::Byte(*x)));
+            ctx.violation(
+                &format!("{}/pairing-after/{}/{}", D::component(), bytes_hex(&prior).replace(' ', ""), bytes_hex(&mk).replace(' ', "")),
+                &format!("{}: after the sequence {}, make {} decodes as {} but break {} decodes as {}", D::component(), bytes_hex(&prior), bytes_hex(&mk), fm, bytes_hex(&bk), fb),
+                Replay { parts: vec![(D::component(), o1), (D::component(), o2)], expected: "make is K Down <=> break is K Up (same K); error <=> error".into(), observed_last: Some(fb) },
+            );
+        }
+    }
+    ctx.evaluations += n2;
+    ctx.part(&format!("pairing-after-one-prior-sequence:{}", D::component()), json!({"prior_sequences": priors.len(), "sequences": all_seqs.len(), "decodes": n2}));
     nontrivial
 }
 
